@@ -186,7 +186,7 @@ DustOf(J, he, led, preM, nl) ==
       pc == IF tc = 1 THEN J.px.lmin ELSE J.px.smin
       pq == IF tp = 1 THEN J.px.lmin ELSE J.px.smin
   IN IF J.op = "decrease" /\ J.ok /\ he.ncb = 0 /\ tc # tp /\ p.col = 0
-        /\ exc(tc) > 0 /\ exc(tp) = 0 /\ exc(tc) * pc < pq
+        /\ exc(tc) > 0 /\ exc(tc) <= J.rep.pos.feeCost /\ exc(tp) = 0 /\ exc(tc) * pc < pq
      THEN <<exc(1), exc(2)>> ELSE <<0, 0>>
 C08ConservedDesign(J, he, led, preM, nl) ==
   HP!C08_Conserved(led, preM, nl, he) \/ DustOf(J, he, led, preM, nl) # <<0, 0>>
